@@ -29,8 +29,15 @@ class Driver:
                     a, b = SOLVERS[nm]
                     A = kw.get(a, c.args[0] if c.args else None)
                     M = kw.get(b, c.args[1] if len(c.args) > 1 else None)
-                    self.sites.append({'node': i, 'call': c, 'solver': nm, 'A': A, 'M': M, 'k': kw.get('k'), 'line': c.lineno,
-                                       'targets': norm(n.targets[0]) if isinstance(n, ast.Assign) else None})
+                    tg = norm(n.targets[0]) if isinstance(n, ast.Assign) else None
+                    if isinstance(n, ast.Assign) and isinstance(n.targets[0], ast.Name):
+                        # out = eigsh(...); ...; eigvals, eigvecs = out   (the pair is unpacked later, the name is used for nothing else)
+                        nm_ = n.targets[0].id
+                        unp = [x for x in ast.walk(fn) if isinstance(x, ast.Assign) and isinstance(x.value, ast.Name) and x.value.id == nm_ and isinstance(x.targets[0], ast.Tuple)]
+                        uses = [x for x in ast.walk(fn) if isinstance(x, ast.Name) and x.id == nm_ and isinstance(x.ctx, ast.Load)]
+                        if len(unp) == 1 and len(uses) == 1:
+                            tg = norm(unp[0].targets[0])
+                    self.sites.append({'node': i, 'call': c, 'solver': nm, 'A': A, 'M': M, 'k': kw.get('k'), 'line': c.lineno, 'targets': tg})
 
     # reaching definition of a name at a CFG node: last assignment on the (straight-line) dominating path
     def reaching(self, name, at):
